@@ -78,7 +78,7 @@ def transitions(ctx, which, model=None):
 def ring_models(ctx):
     """the event machine depends on the configured queue capacity: one model per capacity analysed"""
     from .core import Model
-    caps = (1, 2) if ctx.tier == 'quick' else (1, 2, 3, 8)
+    caps = (1, 2, 3) if ctx.tier == 'quick' else (1, 2, 3, 5, 8)
     out = []
     for c in caps:
         if c == ctx.model.ms.model.ring_cap and not ctx.model.defines:
@@ -90,9 +90,10 @@ def ring_models(ctx):
 
 
 def silent(t):
-    """a transition that neither consumes nor emits a byte nor runs a handler"""
+    """a transition that consumes no stimulus: no input byte, no handler call, no queued event
+    (emitting output is not a stimulus: a machine that only emits for ever is a livelock too)"""
     for e in t.events:
-        if e['k'] == 'cb' or (e['k'] in ('io_read', 'io_write') and e['ok']):
+        if e['k'] == 'cb' or (e['k'] == 'io_read' and e['ok']):
             return False
         # taking an event out of the queue consumes a stimulus as well
         if e['k'] == 'st' and e['loc'] == ('S', 'unsolicited_fsm', 'unsolicited_cmd_buffer_items_count'):
@@ -628,7 +629,7 @@ def _progress(ctx, which, ex, ts):
         names = sorted(set(short(t.frm) for t in inner))
         w = _witness(ex, inner)
         ctx.check('progress', w is not None, 'src/cat.c:cycle:%s' % '/'.join(names),
-                  'a cycle of steps that neither consume, emit nor call a handler has no strictly increasing bounded cursor: %s' % names)
+                  'a cycle of steps that consume no input byte, queued event or handler result has no (lexicographic) strictly increasing cursor: the machine can run for ever without stimulus: %s' % names)
         if w is not None and (tuple(names), tuple(w)) not in ctx.extra.setdefault('_seen_cycles', set()):
             ctx.extra['_seen_cycles'].add((tuple(names), tuple(w)))
             ctx.sample({'silent_cycle': names, 'machine': which, 'ranking': w})
@@ -692,37 +693,23 @@ def _witness(ex, inner):
             if color.get(v, 0) == 0 and not dfs(v):
                 return False
         return True
-    deltas = {loc: [_delta(t, loc) for t in inner] for loc in cands}
-    for a in cands:
-        da = deltas[a]
-        if any(d not in ('+', '0') for d in da):
-            continue
-        rest = [t for t, d in zip(inner, da) if d == '0']
-        if acyclic(rest):
-            return ['.'.join(map(str, a[1:]))]
-    for a in cands:
-        da = deltas[a]
-        if any(d not in ('+', '0') for d in da) or all(d == '0' for d in da):
-            continue
-        for b in cands:
-            if b == a:
-                continue
-            db = deltas[b]
-            ok = True
-            rest2 = []
-            for t, x, y in zip(inner, da, db):
-                if x == '+':
-                    continue
-                if y == '+':
-                    continue
-                if y == '0':
-                    rest2.append(t)
-                    continue
-                ok = False
+    deltas = {loc: {id(t): _delta(t, loc) for t in inner} for loc in cands}
+    remaining = list(inner)
+    ranking = []
+    for _ in range(8):
+        if acyclic(remaining):
+            return ranking or ['(acyclic)']
+        pick = None
+        for a in cands:
+            ds = [deltas[a][id(t)] for t in remaining]
+            if all(d in ('+', '0') for d in ds) and any(d == '+' for d in ds):
+                pick = a
                 break
-            if ok and acyclic(rest2):
-                return ['.'.join(map(str, a[1:])), '.'.join(map(str, b[1:]))]
-    return None
+        if pick is None:
+            return None
+        ranking.append('.'.join(map(str, pick[1:])))
+        remaining = [t for t in remaining if deltas[pick][id(t)] != '+']
+    return ranking if acyclic(remaining) else None
 
 
 def _total(ctx):
